@@ -131,7 +131,11 @@ func runMapping(r Round) *outcome {
 	ad := &adapterDouble{ch: make(chan io.ReadWriteCloser, 8), closed: make(chan struct{})}
 	cfg := config.MappingConfig{MappingID: "m-c16", SecretKey: "k", Protocol: "tcp", LocalPort: 18080, TargetClientID: 42, MaxConnections: 100}
 	h := mapping.NewBaseMappingHandler(cl, cfg, ad)
-	defer h.Close()
+	defer func() {
+		if !roundAborted {
+			h.Close()
+		}
+	}()
 	var mine counter
 	h.AddCleanHandler(func() error { mine.hit(); return nil })
 	if err := h.Start(); err != nil {
@@ -246,8 +250,7 @@ func runMapping(r Round) *outcome {
 		}
 	}
 	rc.release()
-	if ok, dump := rc.waitBlocked(10*time.Second, 40*time.Second); !ok {
-		o.failf("C16/mapping-handler/close-did-not-return", "Close/Stop did not return within 10s; goroutines inside the code under test:\n%s", dump)
+	if !rc.mustReturn(o, base, "BaseMappingHandler.Close/Stop") {
 		return o
 	}
 	rc.measure(o)
